@@ -242,3 +242,6 @@ Proof.
   assert (0 < 2 ^ k)%Z by (apply Z.pow_pos_nonneg; lia).
   rewrite Z.sgn_mul. rewrite (Z.sgn_pos (2 ^ k)) by assumption. now rewrite Z.mul_1_r.
 Qed.
+
+(* exact floor(log2 |a|) of a non-zero dyadic: the unique p with 2^p <= |a| < 2^(p+1) *)
+Definition Dy_ilog2 (a : Dy) : Z := (Z.log2 (Z.abs (dm a)) + de a)%Z.
